@@ -68,6 +68,10 @@ class C14(Prop):
             yield Case('roundtrip', ('capture_re', rng.choice(['(\\d+)', '([a-z])(\\d)', '-(.*)', '(x)|(y)', '^(.)(.*)$']),
                                      tuple(rng.choice(['treat-A1', 'a1', 'b22-x', 'xy', '9', 'q-']) for _ in range(rng.choice([1, 3]))),
                                      rng.random() < 0.4))
+            # split / splitdown with a regular expression, maxsplit and flags, judged against re.split on every value
+            yield Case('roundtrip', ('split_re', rng.choice(['-', '[-,]', 'x', '\\d', 'A']),
+                                     tuple(rng.choice(['a-b-c', 'a,b-c,d', 'x', '', 'a1b2c3', 'q-', 'AxaXA']) for _ in range(rng.choice([1, 3]))),
+                                     rng.choice([0, 0, 1, 2]), rng.choice([0, 0, 2]), rng.random() < 0.4))
             yield Case('roundtrip', ('recast_melt', key, t, rng.choice([None, 1, 2])))
             yield Case('reshape', ('transpose', t))
             yield Case('roundtrip', ('transpose', t))
@@ -201,6 +205,19 @@ class C14(Prop):
                 groups = tuple(m.groups()) if m else tuple(['-'] * ngroups)
                 want.append(((i, v) if include else (i,)) + groups)
             return codec.t_bool(got == want)
+        if kind == 'split_re':
+            import re
+            _, pat, vals, maxsplit, flags, include = arg
+            src = [['id', 'txt', 'z']] + [[i, v, 'z%d' % i] for i, v in enumerate(vals)]
+            got = [tuple(r) for r in etl.split(src, 'txt', pat, ['p', 'q'], include_original=include, maxsplit=maxsplit, flags=flags)]
+            want = [('id', 'txt', 'z', 'p', 'q') if include else ('id', 'z', 'p', 'q')]
+            down = [('id', 'txt', 'z')]
+            for i, v in enumerate(vals):
+                parts = re.split(pat, v, maxsplit=maxsplit, flags=flags)
+                want.append(((i, v, 'z%d' % i) if include else (i, 'z%d' % i)) + tuple(parts))
+                down.extend((i, p, 'z%d' % i) for p in parts)
+            got_down = [tuple(r) for r in etl.splitdown(src, 'txt', pat, maxsplit=maxsplit, flags=flags)]
+            return codec.t_bool(got == want and got_down == down)
         if kind == 'transpose':
             t = arg[1]
             return codec.t_bool([tuple(r) for r in etl.transpose(etl.transpose(L(t)))] == [tuple(r) for r in t])
